@@ -61,11 +61,31 @@ def main():
             rm_demo()
             if not no_existing and meta.get("existing_tests_cmd"):
                 t0 = time.time()
-                rc, out = sh(meta["existing_tests_cmd"], cwd=wt, env=env, timeout=3000)
+                cmd = meta["existing_tests_cmd"]
+                if "go test" in cmd and "-timeout" not in cmd:
+                    cmd = cmd.replace("go test", "go test -timeout 90m", 1)
+                rc, out = sh(cmd, cwd=wt, env=env, timeout=6000)
+                if rc != 0:
+                    # the machine is heavily loaded: timing-sensitive tests flake. Re-run the failing
+                    # top-level tests of each failing package alone; they must pass on their own.
+                    import re as _re
+                    fails = sorted(set(_re.findall(r"^--- FAIL: (\w+)", out, flags=_re.M)))
+                    pkgs = sorted(set(_re.findall(r"^FAIL\s+(\S+)\s", out, flags=_re.M)))
+                    res["existing_tests_first_run_failures"] = fails
+                    if fails and pkgs and "panic: test timed out" not in out:
+                        ok = True
+                        for pk in pkgs:
+                            rel = "./" + pk.split("github.com/prometheus/prometheus/", 1)[-1]
+                            rc2, out2 = sh("go test -count=1 -timeout 60m -run '^(%s)$' %s" % ("|".join(fails), rel), cwd=wt, env=env, timeout=4000)
+                            ok = ok and rc2 == 0
+                            if rc2 != 0:
+                                res["existing_tests_out"] = out2[-1500:]
+                        rc = 0 if ok else 1
+                        res["existing_tests_rerun_alone_pass"] = ok
+                    else:
+                        res["existing_tests_out"] = out[-1500:]
                 res["existing_tests_pass_with_patch"] = rc == 0
                 res["existing_tests_s"] = round(time.time() - t0)
-                if rc != 0:
-                    res["existing_tests_out"] = out[-1500:]
         # our checks against the patched tree
         res["checks"] = {}
         for pid in ids:
